@@ -165,6 +165,25 @@ func walFacts() {
 		"server/wal/wal_impl.go: (*wal).runSync; server/wal/readwrite_segment.go: (*readWriteSegment).Flush",
 		"a failed flush of a segment that is no longer the current one is not an error; a closed segment is not flushed again")
 
+	// every appended record is followed by a cleared payload size field: what a recovery had discarded
+	// behind the end of the log cannot be walked into again
+	ap := funcDecl(rwf, "readWriteSegment", "Append")
+	apb := ""
+	if ap != nil {
+		apb = squash(src(ap.Body))
+	}
+	cn2 := funcDecl(rwf, "readWriteSegment", "clearNextRecordSize")
+	cnb := ""
+	if cn2 != nil {
+		cnb = squash(src(cn2.Body))
+	}
+	add("walAppendTerminatesLog", "Bool", boolLean(
+		strings.Contains(apb, "ms.currentFileOffset += recordSize") &&
+			strings.Index(apb, "ms.clearNextRecordSize()") > strings.Index(apb, "ms.currentFileOffset += recordSize") &&
+			strings.Contains(cnb, "ms.txnMappedFile[i] = 0")),
+		"server/wal/readwrite_segment.go: (*readWriteSegment).Append, clearNextRecordSize",
+		"after the record is written and the file offset advanced, the size field at the new end of the log is zeroed")
+
 	// LastOffset() reports the synced offset
 	lo := funcDecl(w, "wal", "LastOffset")
 	synced := lo != nil && strings.Contains(squash(src(lo.Body)), "return t.lastSyncedOffset.Load()")
